@@ -12,7 +12,7 @@ one() {
   cp /verif/known_findings.json $d/v/
   det=""
   for p in $(seq -w 1 19); do
-    /verif/bin/gvlint check -property C$p -repo $d/repo -verif $d/v > $d/v/out.C$p 2>&1; ec=$?
+    ${GVLINT:-/verif/bin/gvlint} check -property C$p -repo $d/repo -verif $d/v > $d/v/out.C$p 2>&1; ec=$?
     [ $ec -eq 1 ] && det="$det C$p"
     [ $ec -ge 2 ] && det="$det C$p(undecided)"
   done
